@@ -68,6 +68,7 @@ class Report:
         self.extracted = {}           # what the extractors saw (tables, templates) for the reader
         self.analysed = {}
         self.floors = []              # (label, measured, floor)
+        self.errors = []              # analysis errors of individual rule groups (exit 2 unless a violation is found)
         self.fixture_results = []     # (rule, fired)
         self.explanation = ""
         self.not_decided = ""
@@ -90,8 +91,9 @@ class Report:
     def floor(self, label, measured, floor):
         self.floors.append((label, measured, floor))
         if measured < floor:
-            raise AnalysisError("instance count for %s fell to %d, below the floor %d confirmed by hand"
-                                % (label, measured, floor))
+            # evaluated at finish(): a violation found elsewhere takes precedence over a vacuity alarm
+            self.errors.append("instance count for %s fell to %d, below the floor %d confirmed by hand"
+                               % (label, measured, floor))
 
     def fixture(self, rule, fired):
         self.fixture_results.append((rule, bool(fired)))
@@ -100,6 +102,15 @@ class Report:
 
     def note(self, s):
         self.notes.append(s)
+
+    def guard(self, fn, *args, **kw):
+        """Run one rule group; an AnalysisError inside it is recorded (exit 2 at the end unless another rule
+        reports a violation) and does not stop the remaining rule groups."""
+        try:
+            return fn(*args, **kw)
+        except AnalysisError as e:
+            self.errors.append("%s: %s" % (getattr(fn, "__name__", "rule"), e))
+            return None
 
     # ---- finishing -------------------------------------------------------------------
     def _known(self):
@@ -151,7 +162,13 @@ class Report:
         print("%s [%s]: %d obligations, %d discharged, %d known findings, %d violations; %d model cases; %.2fs"
               % (self.pid, self.tier, n_ob, sum(o.ok for o in self.obligations), len(known_hit), len(violated),
                  self.model_cases, time.time() - self.t0))
-        return 1 if violated else 0
+        if violated:
+            return 1
+        if self.errors:
+            for e in self.errors:
+                print("ANALYSIS-ERROR property=%s %s" % (self.pid, e))
+            return 2
+        return 0
 
     def write_evidence(self, checker_cmd, n_viol, n_known):
         obs = self.obligations
@@ -197,6 +214,7 @@ class Report:
             "extracted": self.extracted,
             "known_findings_reported": n_known,
             "notes": self.notes,
+            "analysis_errors": self.errors,
         }
         if self.exhaustive is not None:
             cov["exhaustive"] = bool(self.exhaustive)
